@@ -154,16 +154,24 @@ impl<'l> CelCompiler<'l> {
             let after_true_clause = self.new_label();
             let end_label = self.new_label();
 
+            // The condition is reduced to its truthiness (a failure stays a failure) and kept
+            // on the stack until one clause is chosen: a failed condition skips both clauses
+            // and is the result.
             CompiledProg {
                 inner: NodeValue::Bytecode(
                     expr_node
                         .into_bytecode()
                         .into_iter()
                         .chain(
-                            [PreResolvedCodePoint::JmpCond {
-                                when: JmpWhen::False,
-                                label: after_true_clause,
-                            }]
+                            [
+                                PreResolvedCodePoint::Bytecode(ByteCode::Test),
+                                PreResolvedCodePoint::Bytecode(ByteCode::Dup),
+                                PreResolvedCodePoint::JmpCond {
+                                    when: JmpWhen::False,
+                                    label: after_true_clause,
+                                },
+                                PreResolvedCodePoint::Bytecode(ByteCode::Pop),
+                            ]
                             .into_iter(),
                         )
                         .chain(true_clause_bytecode.into_iter())
@@ -171,6 +179,13 @@ impl<'l> CelCompiler<'l> {
                             [
                                 PreResolvedCodePoint::Jmp { label: end_label },
                                 PreResolvedCodePoint::Label(after_true_clause),
+                                PreResolvedCodePoint::Bytecode(ByteCode::Dup),
+                                PreResolvedCodePoint::Bytecode(ByteCode::Not),
+                                PreResolvedCodePoint::JmpCond {
+                                    when: JmpWhen::False,
+                                    label: end_label,
+                                },
+                                PreResolvedCodePoint::Bytecode(ByteCode::Pop),
                             ]
                             .into_iter(),
                         )
